@@ -90,6 +90,8 @@ func classify(err error) string {
 		return "panic:value"
 	case strings.Contains(msg, "not instantiated"):
 		return "import-missing"
+	case strings.Contains(msg, "has already been instantiated"):
+		return "name-taken"
 	}
 	if i := strings.IndexByte(msg, '\n'); i > 0 {
 		msg = msg[:i]
@@ -116,6 +118,7 @@ type engineRT struct {
 	cA   wazero.CompiledModule
 	cB   wazero.CompiledModule
 	cC   [4]wazero.CompiledModule // startsecA, startsecB, startfnA, startfnB
+	self map[[2]int]wazero.CompiledModule // (kind, startSection) -> self-starter, compiled on first use
 }
 
 var (
@@ -167,6 +170,25 @@ func newEngineRT(name string, term bool) *engineRT {
 }
 
 func (e *engineRT) close() { e.rt.Close(e.ctx) }
+
+func (e *engineRT) selfStarter(kind int, startSection bool) wazero.CompiledModule {
+	key := [2]int{kind, 0}
+	if startSection {
+		key[1] = 1
+	}
+	if c, ok := e.self[key]; ok {
+		return c
+	}
+	c, err := e.rt.CompileModule(e.ctx, buildSelfStarter(kind, startSection))
+	if err != nil {
+		fw.Fatalf("%s: compile self-starter %s: %v", e.name, kindNames[kind], err)
+	}
+	if e.self == nil {
+		e.self = map[[2]int]wazero.CompiledModule{}
+	}
+	e.self[key] = c
+	return c
+}
 
 // ---------------------------------------------------------------- host functions
 
@@ -295,6 +317,26 @@ func newWorld(e *engineRT) *world {
 func (w *world) close() {
 	w.A.Close(w.ctx)
 	w.B.Close(w.ctx)
+	for _, n := range []string{"n", "m"} { // free the names for the next word
+		if m := w.e.rt.Module(n); m != nil {
+			m.Close(w.ctx)
+		}
+	}
+}
+
+// registry renders what the runtime's name registry says about the named start instances.
+func (w *world) registry() string {
+	st := func(n string) string {
+		m := w.e.rt.Module(n)
+		switch {
+		case m == nil:
+			return "nil"
+		case m.IsClosed():
+			return "closed"
+		}
+		return "open"
+	}
+	return "n=" + st("n") + " m=" + st("m")
 }
 
 // ---------------------------------------------------------------- letters
@@ -322,14 +364,60 @@ const (
 	ShStartSecB
 	ShStartFnA
 	ShStartFnB
+	// named start shapes: the new instance is registered under a name and the word goes on afterwards
+	ShNFnA    // instance "n" imports A.direct; its "_start" (ModuleConfig start function) calls direct(kind,k); stays open on success
+	ShNFnB    // same, importing from B
+	ShNFnSelf // instance "n" whose "_start" itself ends in the kind
+	ShMSecA   // instance "m" with a wasm start section calling A.direct(kind,k); closed right away when it starts
+	ShMSecB
+	ShMSecSelf
+	ShLookup // Runtime.Module("n") and a call of its export
+	ShCloseN // Runtime.Module("n").Close
 	NShapes
+	nBaseShapes = ShNFnA
 )
+
+// shapeKinds lists the kinds a shape exists with (nil = all kinds of its target instance).
+func shapeKinds(shape int) []int {
+	switch shape {
+	case ShNFnA, ShMSecA:
+		return []int{KOk, KUnreachable, KPanicError, KProcExit0, KProcExit3, KClose0, KClose7, KCloseB7}
+	case ShNFnB, ShMSecB:
+		return []int{KOk, KUnreachable, KOOBStore}
+	case ShNFnSelf, ShMSecSelf:
+		return selfKinds
+	case ShLookup, ShCloseN:
+		return []int{KOk}
+	}
+	n := NKinds
+	if shapes[shape].target == 'B' {
+		n = NBKinds
+	}
+	all := make([]int, n)
+	for i := range all {
+		all[i] = i
+	}
+	return all
+}
+
+func letterExists(l letter) bool {
+	if l.Shape < 0 || l.Shape >= NShapes {
+		return false
+	}
+	for _, k := range shapeKinds(l.Shape) {
+		if k == l.Kind {
+			return true
+		}
+	}
+	return false
+}
 
 var shapes = [NShapes]shapeInfo{
 	{"directA", 'A'}, {"directB", 'B'}, {"viaB", 'B'}, {"indirectA", 'A'}, {"indirectB", 'B'},
 	{"host1P", 'A'}, {"host2P", 'A'}, {"host5P", 'A'}, {"host1C", 'A'}, {"host5CI", 'A'}, {"host5CO", 'A'},
 	{"host1PB", 'B'}, {"host1CB", 'B'},
 	{"startsecA", 'A'}, {"startsecB", 'B'}, {"startfnA", 'A'}, {"startfnB", 'B'},
+	{"nfnA", 'A'}, {"nfnB", 'B'}, {"nfnSelf", 'N'}, {"msecA", 'A'}, {"msecB", 'B'}, {"msecSelf", 'N'}, {"lookup", 'N'}, {"closeN", 'N'},
 }
 
 type letter struct {
@@ -355,7 +443,7 @@ func parseLetter(s string) (letter, error) {
 			l.Kind = j
 		}
 	}
-	if l.Shape < 0 || l.Kind < 0 || (shapes[l.Shape].target == 'B' && l.Kind >= NBKinds) {
+	if !letterExists(l) {
 		return l, fmt.Errorf("bad letter %q", s)
 	}
 	return l, nil
@@ -418,6 +506,52 @@ func (w *world) step(l letter, k uint32) (string, uint32) {
 		mod, err = w.e.rt.InstantiateModule(w.cur, w.e.cC[l.Shape-ShStartSecA], cfg)
 		if mod != nil {
 			mod.Close(w.cur)
+		}
+	}
+	switch l.Shape {
+	case ShNFnA, ShNFnB, ShNFnSelf, ShMSecA, ShMSecB, ShMSecSelf:
+		sec := l.Shape >= ShMSecA
+		var code wazero.CompiledModule
+		switch l.Shape {
+		case ShNFnSelf, ShMSecSelf:
+			code = w.e.selfStarter(l.Kind, sec)
+		default:
+			t, ci := w.A, 2 // cC: startsecA, startsecB, startfnA, startfnB
+			if shapes[l.Shape].target == 'B' {
+				t, ci = w.B, 3
+			}
+			if sec {
+				ci -= 2
+			}
+			t.ExportedGlobal("skind").(api.MutableGlobal).Set(kind)
+			t.ExportedGlobal("sk").(api.MutableGlobal).Set(uint64(k))
+			code = w.e.cC[ci]
+		}
+		cfg := wazero.NewModuleConfig().WithName("n") // default start functions: "_start"
+		if sec {
+			cfg = wazero.NewModuleConfig().WithName("m").WithStartFunctions()
+		}
+		var mod api.Module
+		mod, err = w.e.rt.InstantiateModule(w.cur, code, cfg)
+		if err == nil {
+			// result: 1 = an open module was returned, 2 = a closed one ("_start" exited with code 0: documented success)
+			res = []uint64{1}
+			if mod.IsClosed() {
+				res[0] = 2
+			}
+			if sec {
+				mod.Close(w.ctx) // "m" never stays
+			}
+		}
+	case ShLookup, ShCloseN:
+		m := w.e.rt.Module("n")
+		switch {
+		case m == nil:
+			return "no-module", 0
+		case l.Shape == ShLookup:
+			res, err = m.ExportedFunction("ping").Call(w.cur)
+		default:
+			err = m.Close(w.ctx)
 		}
 	}
 	cl := classify(err)
